@@ -8,30 +8,45 @@ def Inv (s : St) : Prop :=
 
 theorem inv_init : Inv init := by simp [Inv, init]
 
-theorem inv_step (s : St) (o : Op) (h : Inv s) : Inv (step true s o) := by
+theorem inv_step (st : Bool) (s : St) (o : Op) (h : Inv s) : Inv (step true st s o) := by
+  obtain ⟨cur, next, pending, resp, wire, del, aw, cl, fp⟩ := s
   obtain ⟨h1, h2⟩ := h
-  cases o with
-  | readStart => simp only [step]; split <;> simp_all [Inv]
-  | setCrypt => simp_all [step, Inv]
-  | writeResp =>
-    simp only [step]
-    split
-    · exact ⟨h1, h2⟩
-    · rename_i hn
-      have hnone : s.respEncrypted = none := by simpa using hn
-      simp [Inv, h2 hnone]
-  | peerSends => simp only [step]; split <;> simp_all [Inv]
-  | readDone =>
-    simp only [step]
-    split
-    · exact ⟨h1, h2⟩
-    · split <;> simp_all [Inv]
+  cases cl
+  · cases o <;> simp only [step, Bool.false_eq_true, if_false, if_true] <;> (repeat' split) <;>
+      first
+      | exact ⟨h1, h2⟩
+      | (simp_all [Inv])
+  · simp only [step, if_true]; exact ⟨h1, h2⟩
 
-theorem inv_run (ops : List Op) : Inv (run true ops) := by
-  have : ∀ s, Inv s → Inv (ops.foldl (step true) s) := by
+theorem inv_run (st : Bool) (ops : List Op) : Inv (run true st ops) := by
+  have : ∀ s, Inv s → Inv (ops.foldl (step true st) s) := by
     induction ops with
     | nil => intro s h; simpa
-    | cons o os ih => intro s h; exact ih _ (inv_step s o h)
+    | cons o os ih => intro s h; exact ih _ (inv_step st s o h)
   exact this init inv_init
+
+/-- invariant of the strict plaintext framing (F19 repair): foreign bytes were handed on as plaintext only on a
+    connection that has no cryptographer, negotiates none with this request, and has already answered the request -/
+def Inv2 (s : St) : Prop :=
+  s.foreignPlain = true → s.cur = false ∧ s.next = false ∧ s.awaiting = false
+
+theorem inv2_init : Inv2 init := by simp [Inv2, init]
+
+theorem inv2_step (s : St) (o : Op) (h : Inv2 s) : Inv2 (step true true s o) := by
+  obtain ⟨cur, next, pending, resp, wire, del, aw, cl, fp⟩ := s
+  cases cl
+  · cases o <;> simp only [step, Bool.false_eq_true, if_false, if_true] <;> (repeat' split) <;>
+      first
+      | exact h
+      | (intro hf; have := h hf; simp_all)
+      | (cases cur <;> cases next <;> cases aw <;> simp_all [Inv2])
+  · simp only [step, if_true]; exact h
+
+theorem inv2_run (ops : List Op) : Inv2 (run true true ops) := by
+  have : ∀ s, Inv2 s → Inv2 (ops.foldl (step true true) s) := by
+    induction ops with
+    | nil => intro s h; simpa
+    | cons o os ih => intro s h; exact ih _ (inv2_step s o h)
+  exact this init inv2_init
 
 end Hc.Handover
